@@ -338,6 +338,94 @@ def cli_dialect_leg(res):
                                'model_says': b['model'], 'impl_says': b['got'], 'case_key': 'C13|clidialect|' + b['line']})
 
 
+DOOR_ORACLE = r'''
+import sys, json
+from rbql import rbql_csv
+d, p, color = json.loads(sys.argv[1])
+w = []
+rbql_csv.query_csv('select NF, a1, a2', None, d, p, None, d, p, 'utf-8', w, False, None, '', color)
+for x in w: sys.stderr.write('Warning: ' + x + chr(10))
+'''
+
+
+def cli_door_leg(res):
+    """the front door of `python -m rbql` (csv_main): every combination of --version / --color / --output / --policy / --delim / --query through the REAL
+    process against Model/Cli.lean `cliDoor` (theorems C13_cli_runs_iff, C13_cli_noninteractive_runs_or_refuses, C13_cli_run_dialect,
+    C13_cli_monocolumn_needs_no_delim): refusals are `Error [generic]` on stderr with exit 1 and an empty stdout; a run writes exactly what query_csv
+    writes for the dialect the model names (oracle: query_csv called directly, same stdin)"""
+    import tempfile, shutil
+    from common import enc_str, dec_str
+    probe = 'x y,"p,q",z\nm\tn o,r\n'.encode()
+    combos = []
+    for v in (0, 1):
+        for c in (0, 1):
+            for o in (0, 1):
+                for pol in ('~', 'simple', 'quoted', 'quoted_rfc', 'monocolumn'):
+                    for d in (None, ',', 'TAB', ' ', '\\t'):
+                        for q in (0, 1):
+                            combos.append((v, c, o, pol, d, q))
+    lines = ['clidoor %d %d %d %s %s %d' % (v, c, o, pol, 'N' if d is None else 'S' + enc_str(d), q) for v, c, o, pol, d, q in combos]
+    model = common.run_model(lines)
+    tmpd = tempfile.mkdtemp(prefix='rbqlverif_c13door_')
+    refusal_msgs = {'"--output" is not compatible with "--color"': 'refuse color-output', 'Using "--policy" without "--delim"': 'refuse policy-without-delim',
+                    'option is not compatible with interactive mode': 'refuse color-interactive', 'Separator must be provided': 'refuse delim-required'}
+
+    def one(i):
+        v, c, o, pol, d, q = combos[i]
+        args = []
+        if v: args.append('--version')
+        if c: args.append('--color')
+        outp = os.path.join(tmpd, 'out_%d.csv' % i)
+        if o: args += ['--output', outp]
+        if pol != '~': args += ['--policy', pol]
+        if d is not None: args += ['--delim', d]
+        if q: args += ['--query', 'select NF, a1, a2']
+        env = common.impl_env()
+        r = subprocess.run([common.PY, '-W', 'ignore', '-m', 'rbql'] + args, input=probe, env=env, stdout=subprocess.PIPE, stderr=subprocess.PIPE, timeout=120)
+        so, se = r.stdout, r.stderr.decode('utf-8', 'replace')
+        m = model[i]
+        if m.startswith('run '):
+            _r, md, mp = m.split(' ')
+            orc = subprocess.run([common.PY, '-W', 'ignore', '-c', DOOR_ORACLE, json.dumps([dec_str(md), mp, bool(c)])], input=probe, env=env, stdout=subprocess.PIPE, stderr=subprocess.PIPE, timeout=120)
+            want_out, want_rc = orc.stdout, (0 if orc.returncode == 0 else 1)
+            got_out = open(outp, 'rb').read() if (o and os.path.exists(outp)) else so
+            if orc.returncode != 0:
+                ok = r.returncode != 0 and se.startswith('Error [')        # the dialect itself is refused by query_csv (e.g. whitespace policy with another delimiter)
+            else:
+                ok = r.returncode == 0 and got_out == want_out and (not o or so == b'') and 'Error [' not in se and \
+                    [l for l in se.split('\n') if l] == [l for l in orc.stderr.decode('utf-8', 'replace').split('\n') if l]
+            return ok, {'rc': r.returncode, 'stdout': got_out.decode('utf-8', 'replace')[:200], 'stderr': se[:200], 'oracle_stdout': want_out.decode('utf-8', 'replace')[:200], 'oracle_rc': orc.returncode}
+        obs = None
+        if r.returncode == 0 and __import__('re').match(r'^\d+\.\d+\.\d+\s*$', so.decode('utf-8', 'replace')):
+            obs = 'version'
+        elif r.returncode == 1 and se.startswith('Error [generic]: ') and so == b'':
+            obs = next((cls for msg, cls in refusal_msgs.items() if msg in se), 'refuse other')
+        elif r.returncode == 0 and 'Input file must be provided in interactive mode' in so.decode('utf-8', 'replace'):
+            obs = 'interactive'
+        else:
+            obs = 'other rc=%d' % r.returncode
+        return obs == m, {'rc': r.returncode, 'stdout': so.decode('utf-8', 'replace')[:200], 'stderr': se[:200], 'observed_class': obs}
+    try:
+        with ThreadPoolExecutor(max_workers=common.NPROC) as ex:
+            outs = list(ex.map(one, range(len(combos))))
+    finally:
+        shutil.rmtree(tmpd, ignore_errors=True)
+    nbad = 0
+    for i, (ok, detail) in enumerate(outs):
+        res.evaluations += 1
+        res.nontrivial.add(('clidoor', lines[i]))
+        res.count('cli_door_model=%s' % model[i].split(' ')[0] + ('' if not model[i].startswith('refuse') else ' ' + model[i].split(' ')[1]))
+        if not ok:
+            nbad += 1
+            if nbad <= 3:
+                v, c, o, pol, d, q = combos[i]
+                res.violations.append({'property': 'C13', 'impl': 'py', 'why': 'the command line front door behaves differently from its model (Model/Cli.lean: cliDoor): refusals must be `Error [generic]` on stderr with exit 1 and '
+                                       'an empty stdout, a run must write what query_csv writes for the dialect named by the model', 'args': {'version': v, 'color': c, 'output': o, 'policy': pol, 'delim': d, 'query': q},
+                                       'model_says': model[i], 'observed': detail, 'case_key': 'C13|clidoor|' + lines[i]})
+    res.exhaustive['command-line front door: {--version} x {--color} x {--output} x {no policy, 4 policies} x {no delimiter, 4 spellings} x {--query}: %d invocations' % len(combos)] = True
+    res.count('cli_door_failures', nbad)
+
+
 def cli_encoding_leg(res):
     """non-ASCII data under --encoding utf-8 / latin-1 through the command line, file and stdin in, file and stdout out: the BYTES written are the
     result table of query_table encoded with the requested encoding, whatever the locale of the process says about stdout (direct oracle)"""
@@ -401,6 +489,7 @@ def cli_encoding_leg(res):
 def run(res, tier, seed):
     res.rule = RULE
     cli_dialect_leg(res)
+    cli_door_leg(res)
     cli_encoding_leg(res)
     res.assumptions = ['pandas itertuples / DataFrame(rows, columns) and sqlite3 cursors are faithful adapters (assumed; tied here)', 'argparse mapping is tied, not proved']
     rnd = random.Random(seed * 7001 + 13)
